@@ -15,15 +15,20 @@ type Sx struct {
 	L []Sx
 }
 
-func Zi(i int64) Sx       { return Sx{K: 0, Z: big.NewInt(i)} }
-func Zu(u uint64) Sx      { return Sx{K: 0, Z: new(big.Int).SetUint64(u)} }
-func Zb(b *big.Int) Sx    { return Sx{K: 0, Z: b} }
-func B(b []byte) Sx       { return Sx{K: 1, B: append([]byte{}, b...)} }
-func Sym(s string) Sx     { return Sx{K: 1, B: []byte(s)} }
-func L(items ...Sx) Sx    { return Sx{K: 2, L: items} }
-func Bool(b bool) Sx      { if b { return Zi(1) }; return Zi(0) }
-func OkV(v Sx) Sx         { return L(Sym("ok"), v) }
-func ErrV() Sx            { return L(Sym("err")) }
+func Zi(i int64) Sx    { return Sx{K: 0, Z: big.NewInt(i)} }
+func Zu(u uint64) Sx   { return Sx{K: 0, Z: new(big.Int).SetUint64(u)} }
+func Zb(b *big.Int) Sx { return Sx{K: 0, Z: b} }
+func B(b []byte) Sx    { return Sx{K: 1, B: append([]byte{}, b...)} }
+func Sym(s string) Sx  { return Sx{K: 1, B: []byte(s)} }
+func L(items ...Sx) Sx { return Sx{K: 2, L: items} }
+func Bool(b bool) Sx {
+	if b {
+		return Zi(1)
+	}
+	return Zi(0)
+}
+func OkV(v Sx) Sx { return L(Sym("ok"), v) }
+func ErrV() Sx    { return L(Sym("err")) }
 
 func isWordStart(c byte) bool { return (c >= 'a' && c <= 'z' && c != 'x') || c == '_' }
 func isWordChar(c byte) bool {
@@ -144,6 +149,6 @@ func ParseSx(s string) (Sx, error) {
 }
 
 func (s Sx) IsSym(name string) bool { return s.K == 1 && string(s.B) == name }
-func (s Sx) U64() uint64           { return s.Z.Uint64() }
-func (s Sx) I64() int64            { return s.Z.Int64() }
-func (s Sx) Int() int              { return int(s.Z.Int64()) }
+func (s Sx) U64() uint64            { return s.Z.Uint64() }
+func (s Sx) I64() int64             { return s.Z.Int64() }
+func (s Sx) Int() int               { return int(s.Z.Int64()) }
